@@ -330,6 +330,9 @@ def replay(c, hb):
             for f in (srcfile, args.get("docfile"), args.get("faultfile")):
                 if f and os.path.exists(f):
                     os.remove(f)
+        elif stream == "c12-entry":
+            args = {"seed": args.get("seed", rp.get("seed", 1)), "n": args.get("n", 4), "docs": args.get("docs", 8)}
+            rows, x = run_stream(c, hb, "c12-entry", **args)
         elif stream == "c12-bounds":
             m = re.search(r"case=c(\d+)", rp.get("oracle", ""))
             idx = int(m.group(1)) // 3 if m else 0
@@ -386,6 +389,9 @@ def main():
     # boundary terms (zero / empty / equal bounds, enumerations holding 0, falsy defaults) x 3 formats: values AT the
     # bounds through real generated code, single-fault documents one step BEYOND them against the emitted schema
     run_stream(c, hb, "c12-bounds", n=8 if quick else 120, docs=12 if quick else 20, seed=c.seed)
+    # entry points cog has to INFER (no root $ref / OpenAPI / CUE): the root object is spelled like the package in
+    # several casings; the emitted top-level $ref must name a definition (part of emitClosed and of the $ref oracle)
+    run_stream(c, hb, "c12-entry", n=4 if quick else 60, docs=8 if quick else 16, seed=c.seed)
     run_stream(c, hb, "c12-ir", n=400 if quick else 6000, seed=c.seed, tier=c.tier, malformed=1)
     n, docs = (16, 24) if quick else (300, 40)
     run_stream(c, hb, "c12-lab", n=n, docs=docs, seed=c.seed, tier=c.tier)
